@@ -510,6 +510,126 @@ def _user_row(job):
 # ----------------------------------------------------------------------------
 # main
 # ----------------------------------------------------------------------------
+
+# ----------------------------------------------------------------------------
+# copies of boundary conditions keep every constructor parameter
+# ----------------------------------------------------------------------------
+def check_copy(rep: Report, ix):
+    """Conditions supplied as ready-made objects are *copied* into the BoundariesList
+    (BCBase.from_data / BoundaryPair.copy / BoundariesList.copy), so the condition that is
+    enforced is the copy.  For every concrete boundary-condition class the resolved `copy`
+    (following `super().copy(...)`) must rebuild `self.__class__` with every parameter of
+    the resolved constructor, each filled from the value the object was constructed with
+    (or the override argument of `copy`); a parameter that is only restored conditionally
+    after construction is lost."""
+    from ..index import dotted, strip_doc
+    from ..ispace_lite import HeapFlow, State, deps_of, leaves, unwrap
+
+    base = ix.cls(LOCAL, "BCBase")
+    classes = [c for c in ix.subclasses(base, strict=True) if c.module.rel == LOCAL]
+    n = 0
+    for c in classes:
+        T = c.find_method("copy")
+        I = c.find_method("__init__")
+        if T is None or I is None:
+            raise AnalysisError(f"{c.ref}: copy/__init__ not resolvable")
+        body = strip_doc(T.node.body)
+        if T.cls is base:
+            if not any(isinstance(st, ast.Raise) for st in body):
+                raise AnalysisError(f"{T.ref}: base implementation no longer raises")
+            continue
+        # follow super().copy(...) to the method that constructs
+        chain = [T]
+        cur = T
+        ctor_call = None
+        post_sets: dict[str, bool] = {}  # attribute -> assigned unconditionally on the result after construction
+        override_args: dict[str, str] = {}  # constructor parameter -> name of the copy() argument that may override it
+        for _ in range(6):
+            ctor = [
+                x
+                for x in ast.walk(cur.node)
+                if isinstance(x, ast.Call)
+                and (
+                    (isinstance(x.func, ast.Attribute) and x.func.attr == "__class__" and dotted(x.func.value) == "self")
+                    or (isinstance(x.func, ast.Call) and dotted(x.func.func) == "type" and len(x.func.args) == 1 and dotted(x.func.args[0]) == "self")
+                )
+            ]
+            # names bound to the object under construction in this method
+            objs = set()
+            for st in strip_doc(cur.node.body):
+                if isinstance(st, ast.Assign) and len(st.targets) == 1 and isinstance(st.targets[0], ast.Name) and isinstance(st.value, ast.Call):
+                    f_ = st.value.func
+                    if st.value in ctor or (isinstance(f_, ast.Attribute) and f_.attr == "copy" and isinstance(f_.value, ast.Call) and dotted(f_.value.func) == "super"):
+                        objs.add(st.targets[0].id)
+            for st in strip_doc(cur.node.body):  # top level only: unconditional
+                if isinstance(st, ast.Assign) and len(st.targets) == 1 and isinstance(st.targets[0], ast.Attribute) and isinstance(st.targets[0].value, ast.Name) and st.targets[0].value.id in objs:
+                    post_sets[st.targets[0].attr] = True
+            if len(ctor) == 1:
+                ctor_call = ctor[0]
+                break
+            if len(ctor) > 1:
+                raise AnalysisError(f"{cur.ref}: several `self.__class__(...)` calls")
+            sup = [x for x in ast.walk(cur.node) if isinstance(x, ast.Call) and isinstance(x.func, ast.Attribute) and x.func.attr == "copy" and isinstance(x.func.value, ast.Call) and dotted(x.func.value.func) == "super"]
+            if len(sup) != 1:
+                raise AnalysisError(f"{cur.ref}: `copy` neither constructs `self.__class__(...)` nor delegates to `super().copy(...)`")
+            mro = c.mro()
+            nxt = None
+            for k in mro[mro.index(cur.cls) + 1 :]:
+                if "copy" in k.methods:
+                    nxt = k.methods["copy"][0]
+                    break
+            if nxt is None:
+                raise AnalysisError(f"{cur.ref}: super().copy not resolvable")
+            chain.append(nxt)
+            cur = nxt
+        if ctor_call is None:
+            raise AnalysisError(f"{T.ref}: constructor call of the copy not found")
+        n += 1
+        rep.saw("copy triples", f"{c.name}: {' -> '.join(f.qualname for f in chain)} -> {I.qualname}")
+        a = I.node.args
+        pos = [p.arg for p in a.posonlyargs + a.args][1:]
+        allp = pos + [p.arg for p in a.kwonlyargs]
+        if a.vararg or a.kwarg or any(isinstance(x, ast.Starred) for x in ctor_call.args) or any(k.arg is None for k in ctor_call.keywords):
+            raise AnalysisError(f"{T.ref}/{I.ref}: star arguments are outside the grammar of the rule")
+        passed: dict[str, ast.expr] = dict(zip(pos, ctor_call.args))
+        passed.update({k.arg: k.value for k in ctor_call.keywords})
+        hf = HeapFlow(ix, c, ())
+        st0, _ = hf.run_init()
+        # which attribute does each constructor parameter fill (for post-construction assignments)
+        fills: dict[str, set] = {}
+        for attr, v in st0.heap.items():
+            d = {x[2:] for x in deps_of(unwrap(v)) | frozenset().union(*[deps_of(l) for _, l in leaves(v)] or [frozenset()]) if x.startswith("p:")}
+            for p_ in d:
+                fills.setdefault(p_, set()).add(attr.lstrip("_"))
+        extra = [k for k in passed if k not in allp]
+        missing = [p_ for p_ in allp if p_ not in passed and not any(post_sets.get(at) or post_sets.get("_" + at) for at in fills.get(p_, {p_}))]
+        rep.oblige(f"copy:{c.name}:every constructor parameter is carried over", not extra and not missing, {"passed": sorted(passed), "constructor": allp, "set afterwards": sorted(post_sets)})
+        for k in extra:
+            rep.violation("C02.copy-keeps-parameters", f"{T.ref}::{c.name}/extra={k}", f"`copy` of {c.name} (defined in {cur.cls.name}) passes `{k}=` to `self.__class__`, but {I.ref} has no such parameter: copying this condition raises TypeError", line=ctor_call.lineno)
+        for p_ in missing:
+            rep.violation(
+                "C02.copy-keeps-parameters",
+                f"{T.ref}::{c.name}/missing={p_}",
+                f"`copy` of {c.name} rebuilds the condition through {cur.ref} without `{p_}` (parameter of {I.ref}) and does not restore it unconditionally afterwards: "
+                f"a condition handed over as an object (it is copied into the BoundariesList) silently gets the default `{p_}`, so another equation is enforced at the boundary",
+                line=ctor_call.lineno,
+            )
+        copy_params = {p.arg for f_ in chain for p in f_.node.args.args + f_.node.args.kwonlyargs}
+        for p_, e in passed.items():
+            if p_ in extra:
+                continue
+            # `self.x if x is None else x`: the stored value unless the caller overrides it
+            if isinstance(e, ast.IfExp) and isinstance(e.test, ast.Compare) and isinstance(e.test.left, ast.Name) and e.test.left.id in copy_params and isinstance(e.orelse, ast.Name) and e.orelse.id == e.test.left.id:
+                e = e.body
+            v = hf.ev(e, State({}, st0.heap), 0)
+            d = {x[2:] for x in deps_of(unwrap(v)) | frozenset().union(*[deps_of(l) for _, l in leaves(v)] or [frozenset()]) if x.startswith("p:")}
+            ok = d == {p_}
+            rep.oblige(f"copy:{c.name}:{p_}<-same-parameter", ok, f"{ast.unparse(e)} <- parameters {sorted(d)}")
+            if not ok:
+                rep.violation("C02.copy-keeps-parameters", f"{T.ref}::{c.name}/param={p_}", f"`copy` of {c.name} fills `{p_}` with `{ast.unparse(e)}` (from constructor parameters {sorted(d)}), which is not the value the condition was constructed with", line=ctor_call.lineno)
+    rep.floor("(class, copy, __init__) triples analysed", n, 15)
+
+
 def check(tier: str) -> Report:
     rep = Report("C02", tier, "proof", "ast->sympy extraction of ghost-cell formulas (interpreted and compiled setters) checked against the defining equations; index tables on symbolic shapes")
     rep.explanation = (
@@ -628,6 +748,7 @@ def check(tier: str) -> Report:
                 f"alias `{alias}` resolves to {cname}, whose extracted formula satisfies {sorted(got)} (normal={is_normal}); documented meaning is `{want}`",
             )
     check_parsing(rep, ix)
+    check_copy(rep, ix)
     rep.assumptions += [
         "every axis has at least two cells (the code raises otherwise)",
         "values of user expressions/callables are uninterpreted symbols (their meaning is property C11)",
@@ -708,6 +829,22 @@ def check_parsing(rep: Report, ix):
         ({"value": 3}, ["LOCAL", "LOCAL"]),
         ({"type": "neumann", "value": 1}, ["LOCAL", "LOCAL"]),
     ]
+    # exhaustive key-presence lattice of one axis: every subset of {*, x, x-, x+, left, right} (a side key and
+    # the alias of the same side are not combined: the code warns about duplicates there) with the documented
+    # precedence  side/alias > whole axis > wildcard;  the second axis gets the wildcard only
+    import itertools as _it
+
+    KEYS = ["*", "x", "x-", "x+", "left", "right"]
+    for r in range(1, len(KEYS) + 1):
+        for sub in _it.combinations(KEYS, r):
+            if ("x-" in sub and "left" in sub) or ("x+" in sub and "right" in sub):
+                continue
+            spec = {k: "V" + k for k in sub}
+            w = spec.get("*")
+            lo = spec.get("x-", spec.get("left", spec.get("x", w)))
+            hi = spec.get("x+", spec.get("right", spec.get("x", w)))
+            cases.append((spec, [(lo, hi), (w, w)]))
+    rep.floor("boundary specification cases (key-presence lattice of one axis + mixed examples)", len(cases), 40)
     for spec, want in cases:
         log = []
         ov = std_overrides(ix, cfg)
